@@ -266,11 +266,16 @@ def build_evidence(pid, tier, seed, reg, outs, results, proved, failed, unknown,
                 'seconds': r['seconds'], 'where': r['where'], 'path': r.get('path')}
                for r in (failed[:5] + proved[:12])]
     level = meta.get('level', 'proof')
-    n_obl = len(results)
-    # obligations carried by a listed known finding are neither counted as discharged nor hidden
+    # an obligation carried by a listed known finding is generated twice: restricted to outside the
+    # known failing class (counted here, must be discharged) and unrestricted (reported separately
+    # below, expected to fail, never counted as discharged)
+    kf_marked = [r for r in results if r.get('kf')]
+    n_obl = len(results) - len(kf_marked)
     cov = {
         'obligations': n_obl,
-        'discharged': len(proved),
+        'discharged': len([r for r in proved if not r.get('kf')]),
+        'known_finding_obligations': {'generated': len(kf_marked),
+                                      'failing_or_open': len([r for r in kf_marked if r['status'] != 'proved'])},
         'failed': len(failed),
         'failed_known_findings': len(known_hits),
         'undecided': len(unknown),
